@@ -663,6 +663,37 @@ def fat_dispatch(ctx, tree):
             if d and k.dir == d and name in k.funcs and not k.executable: bad.append("%s -> %s needs %s" % (sym, k.path, k.missing))
     return sel, bad
 
+def fat_first_calls(ctx, harness, lines, desc, cflags, cfg, info):
+    """fat build: the FIRST dispatched call of a process goes through the initialising stub of fat_entry.asm (save the argument
+    registers, run __gmpn_cpuvec_init, restore, jump); every later call jumps straight through the filled vector.  So each
+    operation is also run as the only line of a fresh process (three lines per op, shortest first)."""
+    byop = collections.defaultdict(list)
+    for ln in lines:
+        if len(ln) < 4000: byop[ln.split(" ", 1)[0]].append(ln)
+    picks = []
+    for op in sorted(byop):
+        v = sorted(byop[op], key=len); picks += [v[0], v[len(v) // 2], v[-1]] if len(v) >= 3 else v
+    impl = []
+    for ln in picks:
+        rc, o, err = vlib.run_stream(harness, [ln], timeout=120)
+        impl.append(o[0] if rc == 0 and len(o) == 1 else "<crash rc=%s> %s" % (rc, (err.strip().split("\n") or [""])[-1][:200]))
+    keep = [i for i in range(len(picks)) if "!nokernel" not in impl[i]]
+    l2 = [picks[i] for i in keep]; i2 = [impl[i] for i in keep]
+    rc2, model, err2 = vlib.run_stream(ctx.driver, [a + " => " + b for a, b in zip(l2, i2)])
+    if rc2 != 0 or len(model) != len(l2): raise RuntimeError("Lean driver failed in fat first-call stage: %s" % err2[-800:])
+    out = []; seen = set()
+    for _, ln, a, b in vlib.diff_streams(l2, i2, model):
+        op = ln.split(" ", 1)[0]
+        if op in seen: continue
+        seen.add(op); p = replay_path(ctx.pid)
+        with open(p, "w") as f:
+            f.write("# property %s  seed %d  tier %s  stage rebuild (first call of a fresh process)\n# rebuild: table=-\n# rebuild-cflags: %s\n# rebuild-configure: %s\n" % (ctx.pid, ctx.seed, ctx.tier, cflags, " ".join(cfg)))
+            f.write("# op: %s\n# implementation (this line alone in a fresh process of the fat library): %s\n# model/spec: %s\n%s\n" % (ln[:2000], a[:2000], b[:2000], ln))
+        print("DISAGREE under %s, first call of a fresh process: %s\n  impl : %s\n  model: %s" % (desc, ln[:300], a[:300], b[:300]))
+        out.append(("rebuild %s first call | %s | impl=%s | model=%s" % (desc, ln[:300], a[:200], b[:200]), p))
+    info["first_call_processes"] = len(l2); info["first_call_disagreements"] = len(out)
+    return out
+
 def run_variant(ctx, var, jobs, cov):
     tag, desc, rel, cflags, cfg = var
     t0 = time.time(); tree = None; out = []; info = {"what": desc}
@@ -685,6 +716,8 @@ def run_variant(ctx, var, jobs, cov):
         lines += other_value_lines(ctx, tree, harness)
         for f in sorted(glob.glob(os.path.join(vlib.VERIF, "corpus", ctx.pid, "*.ops"))):       # past failures, on every rebuilt library
             lines += [l.rstrip("\n") for l in open(f) if l.strip() and not l.startswith(("#", "@"))]
+        if cfg and "--enable-fat" in cfg:
+            out += fat_first_calls(ctx, harness, lines, desc, cflags, cfg, info)
         rc0, base, err0 = vlib.run_stream(ctx.harness, lines, timeout=3600)          # the default library on the same lines
         if rc0 == 0 and len(base) == len(lines):
             exc = re.compile(r"!(div0|sqrtneg|invalid|fpe)\b")
